@@ -24,6 +24,9 @@ type c04Case struct {
 	Choices  []int
 	LateOps  int
 	Stall    int // transport before the cancel: 0 flowing, 1 client->server stalled, 2 both directions stalled
+	// Second: a second caller issues a unary RPC right after the cancel and has its own context
+	// cancelled while it waits (for the semaphore, for the previous stream, or for its response).
+	Second bool
 }
 
 // weighted choice alphabet for C04: grants are frequent so that several operations are in
@@ -73,6 +76,7 @@ func genC04(t *rapid.T) c04Case {
 	c.CancelAt = rapid.IntRange(0, 30).Draw(t, "cancelAt")
 	c.LateOps = rapid.IntRange(0, 3).Draw(t, "late")
 	c.Stall = rapid.IntRange(0, 2).Draw(t, "stall")
+	c.Second = rapid.IntRange(0, 2).Draw(t, "second") == 0
 	if rapid.IntRange(0, 2).Draw(t, "points") == 0 {
 		c.Cfg.Points = rapid.SliceOfNDistinct(rapid.SampledFrom(streamPoints), 1, 4, func(s string) string { return s }).Draw(t, "pts")
 		c.Cfg.PointLimit = 6
@@ -108,7 +112,9 @@ func runC04(c c04Case) (r pbt.Result) {
 	}
 	rpc := sim.RPC{NoFinalClose: true, Handler: sim.Prog{Steps: hsteps},
 		CSubs: []sim.Prog{{Steps: sends}, {Steps: c.Sends2}, {Steps: recvSteps}, {Steps: term}}}
-	w := sim.NewWorld(c.Cfg, []sim.RPC{rpc})
+	rpc1 := sim.RPC{Unary: true, ReqSize: 3, CSubs: []sim.Prog{{Steps: []sim.Step{{Op: "cancel"}}}},
+		Handler: sim.Prog{Steps: []sim.Step{{Op: "recv"}, {Op: "send", Size: 1}, {Op: "ret"}}}}
+	w := sim.NewWorld(c.Cfg, []sim.RPC{rpc, rpc1})
 	defer w.Drain()
 	fail := func(f string, a ...any) {
 		r.Fail = fmt.Sprintf(f, a...)
@@ -216,12 +222,22 @@ func runC04(c c04Case) (r pbt.Result) {
 			r.Excluded = "F13"
 		}
 	}
+	if c.Second {
+		w.StartClient(1)
+		frozen.NoGrants = false
+		frozen.OnlyActors = func(n string) bool { return n == "c1" || n == "c1.1" }
+	}
 	for i := 0; i < 500; i++ {
 		if _, ok := w.Step(take(&choices), frozen); !ok {
 			break
 		}
 	}
+	frozen.NoGrants, frozen.OnlyActors = true, nil
 	w.Quiesce()
+	if c.Second && !w.Done("c1") {
+		fail("a second caller whose own context was cancelled while waiting did not return")
+		return
+	}
 	if still := w.InCall("c0."); len(still) > 0 {
 		fail("operations still blocked after the context was cancelled (frozen transport)")
 		r.Detailf("still=%v", still)
@@ -336,6 +352,9 @@ func runC04(c c04Case) (r pbt.Result) {
 		r.Label("late_ops")
 	}
 	r.Label(fmt.Sprintf("stall_%d", c.Stall))
+	if c.Second {
+		r.Label("second_caller")
+	}
 	if soft {
 		r.Label("soft")
 	} else {
